@@ -260,3 +260,6 @@ func sign(i int) int {
 func show(v interface{}) string {
 	return string(stats.ExtJSON(bson.D{{Key: "v", Value: v}}))
 }
+
+// fuzzRec returns a recorder for native fuzz targets.
+func fuzzRec(id, sub string) *stats.Rec { return stats.For(id, sub) }
